@@ -16,6 +16,8 @@ CLAIMED = {
          "DESIGN.md C09", "CBMC's (float)/(_Float16) casts as round-to-nearest-even oracle; signalling-NaN payloads excluded; argument-list syntax, padding and integer range checks not yet covered"),
  "C13": ("EQU/SET rules through the real EnterIntSymbolWithFlags/SymbolAdder/LookupSymbol: a constant never changes silently, SET may, double definition and EQU/SET mixing are errors",
          "DESIGN.md C13", "same cuts as C01; section resolution order, PUBLIC/GLOBAL/FORWARD, local handles, PUSHV/POPV, case folding and temporary symbols are not yet covered"),
+ "C16": ("ReadLnCont (strutil.c) on every file of <= 3 bytes (4 thorough): CR before LF and a trailing ^Z are immaterial, backslash-newline joins lines, the return value is the number of physical lines consumed",
+         "DESIGN.md C16", "only the line reader; SplitLine (blanks/tabs/comments/colon), letter case, INCLUDE/macro wrapping and the per-target operand parsers are outside"),
  "C17": ("report-option non-interference at the emission step (2-safety by self-composition): the real WriteCode + BookKeeping run twice from the same arbitrary state under two arbitrary settings of -u/-g/-C/list mode/list mask and must hand the same records, counters and errors to the code-file writer",
          "DESIGN.md C17", "one step only; code-file writer and debug/use lists are call recorders; whole-run determinism, option placement and locale are outside"),
  "C18": ("reset completeness of ~40 per-file/per-pass core variables: arbitrary pre-state (what a predecessor file could leave), then the real AsmDefInit/AsmIFInit/AssembleFile_InitPass/AsmSubPassInit; every listed variable must hold its start value",
@@ -28,6 +30,8 @@ CLAIMED = {
          "DESIGN.md C19", "listing formatter replaced by a token recorder; radix 16; MAP, symbol table and share file outputs are not covered"),
  "C20": ("position selection for diagnostics: GetErrorPos and INCLUDE/MACRO/REPT_GetPos over chains of <= 3 input tags in native and -gnuerrors style; ExpandINCLUDE_Core/INCLUDE_Restorer reinstate the enclosing file's physical line counter and name; EXPECT/ENDEXPECT bookkeeping (asmerr.c); physical-line counting of ReadLnCont",
          "DESIGN.md C20", "formatter replaced by a token recorder; IRP/IRPC/WHILE tags, message text and column markers outside"),
+ "C11": ("macro parameter substitution kernel: CompressLine + ExpandLine (asmsub.c) on every body line of <= 4 characters, parameter name of 1..2 letters, parameter number 0..19 and argument of <= 2 characters equals the textual replacement of whole (alphanumerically delimited) parameter names",
+         "DESIGN.md C11", "only the substitution kernel; argument binding, iteration stepping, nesting, INCLUDE/BINCLUDE and the end-to-end equivalence with hand expansion are outside"),
  "C12": ("asmif.c complete: every sequence of K statements (17 kinds, arbitrary 64-bit conditions/selectors, 0..3 arguments) vs a reference interpreter written from the manual",
          "DESIGN.md C12", "expression evaluator and symbol/macro/file look-ups replaced by stubs returning arbitrary values; listing decoration stubbed; integer selectors; K=4 quick / K=6 thorough"),
 }
